@@ -257,6 +257,7 @@ fn run_steps_sync(o: usize, id: u32, body: &[Step]) {
             Step::Push(st, item) => stream_push(*st, *item),
             Step::CloseStream(st) => stream_close(*st),
             Step::Mark => rt::kernel::sweep_mark(),
+            Step::WakeSelf => {}
         }
     }
 }
@@ -371,6 +372,10 @@ impl Future for BodyFut {
                             return Poll::Pending;
                         }
                     }
+                }
+                Step::WakeSelf => {
+                    w().cover.self_wakes += 1;
+                    cx.waker().wake_by_ref();
                 }
                 Step::AwaitAny(g1, g2) => {
                     let (g1, g2) = (*g1, *g2);
